@@ -2444,6 +2444,30 @@ fn prep_complex(cfg: &Chan, _s: &Rc<Scratch>) -> Result<Prepared, String> {
     }
 }
 
+/// Maps and sets with more entries than the loaders' up-front capacity cap (4096 entries, 7168 in
+/// hashbrown's terms): what a loader does with an overstated count field once that many entries
+/// have really arrived.  The image is written from a BTreeMap / BTreeSet (same wire format, fixed
+/// order) and read back as the hashed container.
+fn prep_complex_large(cfg: &Chan, _s: &Rc<Scratch>) -> Result<Prepared, String> {
+    let (conf, cname) = match cfg.below(3) {
+        0 => (ComplexTypeConfig::fast(), "fast"),
+        1 => (ComplexTypeConfig::compact(), "compact"),
+        _ => (ComplexTypeConfig::new(), "metadata"),
+    };
+    let ser = ComplexTypeSerializer::new(conf);
+    let n = *cfg.pick(&[7200u32, 7169, 8000, 4097]);
+    let x = cfg.below(1 << 16) as u32;
+    if cfg.below(2) == 0 {
+        let m: BTreeMap<u32, u32> = (0..n).map(|i| (i.wrapping_mul(2654435761).wrapping_add(x), i)).collect();
+        let bytes = ser.serialize_to_bytes(&m).map_err(es)?;
+        Ok(Prepared { target: format!("ComplexTypeSerializer[{}]::deserialize_from_bytes<HashMap<u32,u32>>[{} entries]", cname, m.len()), bytes, truth: None, stable: true, decode: Box::new(move |b, _| ser.deserialize_from_bytes::<HashMap<u32, u32>>(b).is_ok()) })
+    } else {
+        let m: BTreeSet<u32> = (0..n).map(|i| i.wrapping_mul(2654435761).wrapping_add(x)).collect();
+        let bytes = ser.serialize_to_bytes(&m).map_err(es)?;
+        Ok(Prepared { target: format!("ComplexTypeSerializer[{}]::deserialize_from_bytes<HashSet<u32>>[{} entries]", cname, m.len()), bytes, truth: None, stable: true, decode: Box::new(move |b, _| ser.deserialize_from_bytes::<HashSet<u32>>(b).is_ok()) })
+    }
+}
+
 fn prep_smart_ptr(cfg: &Chan, _s: &Rc<Scratch>) -> Result<Prepared, String> {
     let (conf, cname) = match cfg.below(4) {
         0 => (SmartPtrConfig::new(), "default"),
@@ -3028,6 +3052,7 @@ fn families() -> Vec<Family> {
         Family { name: "var_int_variants/decode", quick: 500, thorough: 30000, ops: 48, slow: false, hdr: HDR_STEP, prepare: prep_var_int_variants },
         Family { name: "data_input/read", quick: 400, thorough: 24000, ops: 48, slow: false, hdr: HDR_STEP, prepare: prep_data_input },
         Family { name: "complex_types/deserialize", quick: 500, thorough: 30000, ops: 48, slow: false, hdr: HDR_STEP, prepare: prep_complex },
+        Family { name: "complex_types/large-maps", quick: 32, thorough: 1920, ops: 24, slow: true, hdr: HDR_STEP, prepare: prep_complex_large },
         Family { name: "smart_ptr/deserialize", quick: 400, thorough: 24000, ops: 48, slow: false, hdr: HDR_STEP, prepare: prep_smart_ptr },
         Family { name: "hex/decode", quick: 200, thorough: 12000, ops: 32, slow: false, hdr: HDR_STEP, prepare: prep_hex },
         Family { name: "base64/decode", quick: 200, thorough: 12000, ops: 32, slow: false, hdr: HDR_STEP, prepare: prep_base64 },
